@@ -23,11 +23,14 @@ inline void key_add(key_t& k, real const& x)
     k.push_back(static_cast<std::uint64_t>(x.k));
     k.push_back(x.k == FIN ? x.e.id() : 0);
 }
-inline void key_add(key_t& k, double x)
+template <typename F, if_arith<F> = 0>
+inline void key_add(key_t& k, F x)
 {
-    std::uint64_t b;
-    std::memcpy(&b, &x, sizeof b);
-    k.push_back(b);
+    long double const y = x;
+    std::uint64_t b[2] = {0, 0};
+    std::memcpy(b, &y, 10);
+    k.push_back(b[0]);
+    k.push_back(b[1]);
 }
 template <typename T>
 inline key_t key_of(std::vector<T> const& v, std::uint64_t salt = 0)
